@@ -72,6 +72,12 @@ fn replay_corpus(prop: &str, tier: Tier, seed: u64) -> Option<Verdict> {
         let Some(fails) = replay::replay_case(prop, case) else { continue };
         n += 1;
         if let Some((step, clause, detail)) = fails.into_iter().find(|(_, c, _)| c.starts_with(prop)) {
+            let v = crate::runner::Violation { case: case.clone(), clause: clause.clone(), step, detail: detail.clone() };
+            if let Some(what) = crate::runner::known_finding(prop, &v) {
+                // still listed as an open finding: say so and keep exploring
+                println!("KNOWN-FINDING: property={prop} {what} (corpus case {})", path.display());
+                continue;
+            }
             println!("regression corpus case {} fails again", path.display());
             let mut m = crate::runner::Merged::new();
             m.evaluations = n;
